@@ -53,6 +53,9 @@ def frame_of(p: str) -> bytes:
     raise ValueError(p)
 
 
+_wf = [0]
+
+
 class ObservedConnection(APIConnection):
     """the real connection; the first error handed to report_fatal_error is remembered for the oracle"""
     __slots__ = ("first_reported",)
@@ -311,8 +314,15 @@ class Bench:
                 return
             net.reset()
             self.emit("reset")
+        elif k == "sockFault":
+            # not a model event: the socket handed over next raises OSError from setsockopt / getpeername (scenarios with
+            # this op are judged by the oracles only)
+            net.sock_fault = op[1]
         elif k == "setWrite":
-            net.fail_writes = None if op[1] else OSError("boom")
+            # the failure classes a transport write can raise (asyncio: OSError family; uvloop / after write_eof: RuntimeError)
+            _wf[0] += 1
+            exc = [OSError("boom"), RuntimeError("the transport is closed"), ConnectionResetError(104, "reset"), BrokenPipeError(32, "pipe")][_wf[0] % 4]
+            net.fail_writes = None if op[1] else exc
             for t in getattr(net, "all_transports", []):
                 t.fail_writes = net.fail_writes
             self.emit(f"setWrite {op[1]}")
